@@ -203,15 +203,20 @@ pub fn gen_c04_order_long(r: &mut Rng, id: usize) -> Group {
                 "(entries .o)", "(filter_values .o (= .k ^.l#0.k))", "(map_values .o .i)", "(filter_keys .o (!= . \"m3\"))", "(take .l .n)", "(take_last .l .n)",
                 "(sub .l 3 .n)", "(first .l)", "(last .l)", "(pop .l)", "(pop_first .l)", "(indexed .l)", "(zip (map .l .i) (map .l .k))", "(take .o .n)",
                 "(take_last .o .n)", "(sub .o 3 .n)", "(join (map .l (stringify .i)) \",\")", "(fold .l [] (push .so_far .value.i))", "(any (map .l (= .i 20)))", "(all (map .l (number? .i)))",
-                "(map (sort_by .l .k) .i)", "(sum (map .l .i))", "(size .l)", "(size .o)"];
+                "(map (sort_by .l .k) .i)", "(sum (map .l .i))", "(size .l)", "(size .o)",
+                // lists of DIFFERENT lengths side by side, the shorter one first, in the middle, last, empty
+                "(zip (take (map .l .i) 2) (map .l .k))", "(zip [] (map .l .i))", "(zip (map .l .i) [])", "(zip (take (map .l .i) 1) (map .l .k) (take (map .l .i) 3))",
+                "(zip (map .l .k) (take (map .l .i) 2))", "(cross (take (map .l .i) 2) (take (map .l .k) 3))", "(zip (take (map .l .i) .n) (map .l .k) [])"];
     let mut c = case(format!("C04-{id}"));
     let m = r.range(3, 6);
     for j in 0..m {
         c.spec.selects.push(format!("{}=c{j}", r.pick(&pool)));
     }
     c.spec.utf8 = true;
+    let rec_value = value::strict_parse(rec.as_bytes()).ok();
     c.sources.push(stdin_src(rec.into_bytes()));
     let mut g = Group::new(vec![c]);
+    g.values = rec_value.into_iter().collect();
     g.nontrivial = true;
     g.labels.push("kind:order-long".into());
     g
@@ -564,6 +569,30 @@ pub fn gen_c07(r: &mut Rng, id: usize, thorough: bool) -> Group {
         g.values = vec![rec];
         g.tag = "triple".into();
         g.labels.push(if exhaustive { "kind:exhaustive-pairs".into() } else { "kind:triple".into() });
+        return g;
+    }
+    if r.chance(8) {
+        // the sort functions with a key that depends on the ENCLOSING record, over several records that share their list:
+        // each record must be sorted by its own keys (nothing computed for one record may serve the next)
+        let n = r.range(2, 9);
+        let list: Vec<i128> = (0..n).map(|_| r.below(4) as i128).collect();
+        let recs: Vec<V> = (0..r.range(2, 4)).map(|_| {
+            let sign = if r.chance(50) { 1 } else { -1 };
+            let p = if r.chance(50) { "a" } else { "b" };
+            V::Obj(vec![("n".into(), V::Arr(list.iter().map(|x| V::Int(*x)).collect())), ("sign".into(), V::Int(sign)), ("p".into(), V::Str(p.into()))])
+        }).collect();
+        let mut c = case(format!("C07-{id}-ctx"));
+        c.spec.selects.push("(sort_by .n (* . ^.sign))=s".into());
+        c.spec.selects.push("(sort_by (push [] {\"a\":1,\"b\":2} {\"a\":2,\"b\":1} {\"a\":1,\"b\":3}) (get . ^.p))=t".into());
+        c.spec.selects.push(".sign=sign".into());
+        c.spec.selects.push(".p=p".into());
+        let text: String = recs.iter().map(|v| value::render(v) + "\n").collect();
+        c.sources.push(stdin_src(text.into_bytes()));
+        let mut g = Group::new(vec![c]);
+        g.values = recs;
+        g.tag = "functions-ctx".into();
+        g.nontrivial = true;
+        g.labels.push("kind:functions-ctx".into());
         return g;
     }
     if r.chance(25) {
@@ -2466,6 +2495,35 @@ pub fn oracle(prop: &str, g: &Group, obs: &[Obs]) -> Option<String> {
             let _ = c;
             None
         }
+        "C07" if g.tag == "functions-ctx" => {
+            let (c, o) = (&g.cases[0], &obs[0]);
+            if o.res != "ok" {
+                return Some(format!("{}: run gave {} {}", c.id, o.res, o.panic_msg));
+            }
+            let rows = parse_rows(&o.out, "\n").ok()?;
+            if rows.len() != g.values.len() {
+                return Some(format!("{}: {} rows for {} records", c.id, rows.len(), g.values.len()));
+            }
+            for (k, (row, rec)) in rows.iter().zip(&g.values).enumerate() {
+                let sign = match get_key(rec, "sign") { Some(V::Int(i)) => *i, _ => 1 };
+                let input: Vec<i128> = match get_key(rec, "n") { Some(V::Arr(a)) => a.iter().filter_map(|v| if let V::Int(i) = v { Some(*i) } else { None }).collect(), _ => vec![] };
+                let mut want = input.clone();
+                want.sort_by_key(|x| x * sign); // stable
+                let got: Vec<i128> = match get_key(row, "s") { Some(V::Arr(a)) => a.iter().filter_map(|v| if let V::Int(i) = v { Some(*i) } else { None }).collect(), _ => vec![] };
+                if got != want {
+                    return Some(format!("{}: record {k} (sign {sign}): (sort_by .n (* . ^.sign)) gave {got:?}, sorted by its own key it is {want:?}", c.id));
+                }
+                let p = match get_key(rec, "p") { Some(V::Str(s)) => s.clone(), _ => "a".into() };
+                let keys: Vec<i128> = match get_key(row, "t") {
+                    Some(V::Arr(a)) => a.iter().filter_map(|v| match get_key(v, &p) { Some(V::Int(i)) => Some(*i), _ => None }).collect(),
+                    _ => vec![],
+                };
+                if keys.len() != 3 || keys.windows(2).any(|w| w[0] > w[1]) {
+                    return Some(format!("{}: record {k}: the objects sorted by their member {p:?} come out with keys {keys:?}", c.id));
+                }
+            }
+            None
+        }
         "C03" | "C06" | "C07" => crate::oracle_a::oracle(prop, g, obs),
         "C04" if g.labels.iter().any(|l| l == "kind:order-long") => {
             // element order: whatever the function, elements that carry an arrival index `i` and compare equal on `k`
@@ -2507,6 +2565,48 @@ pub fn oracle(prop: &str, g: &Group, obs: &[Obs]) -> Option<String> {
                     V::Arr(items) if stable_by_key || keeps_order => {
                         if let Some(m) = ordered(items, stable_by_key) {
                             return Some(format!("{}: `{e}` does not keep arrival order among {}: {m}", c.id, if stable_by_key { "equal keys" } else { "the elements" }));
+                        }
+                    }
+                    V::Arr(items) if e.starts_with("(zip ") => {
+                        // "(zip l0 l1 …)": element t is the object with a member ".j" for every list j that has an item t
+                        let n = match get_key(g.values.first().unwrap_or(row), "l") { Some(V::Arr(a)) => a.len(), _ => 0 };
+                        let half = n / 2;
+                        let inner = &e[5..e.len() - 1];
+                        // split the arguments at top level
+                        let mut args: Vec<String> = vec![];
+                        let (mut depth, mut cur) = (0i32, String::new());
+                        for ch in inner.chars() {
+                            match ch {
+                                '(' | '[' => { depth += 1; cur.push(ch); }
+                                ')' | ']' => { depth -= 1; cur.push(ch); }
+                                ' ' if depth == 0 => { if !cur.is_empty() { args.push(std::mem::take(&mut cur)); } }
+                                _ => cur.push(ch),
+                            }
+                        }
+                        if !cur.is_empty() { args.push(cur); }
+                        let len_of = |a: &str| -> Option<usize> {
+                            if a == "[]" { return Some(0); }
+                            if a.starts_with("(map .l ") { return Some(n); }
+                            if let Some(rest) = a.strip_prefix("(take (map .l ") {
+                                let k = rest.rsplit(' ').next()?.trim_end_matches(')');
+                                let k = if k == ".n" { half } else { k.parse().ok()? };
+                                return Some(k.min(n));
+                            }
+                            None
+                        };
+                        let lens: Option<Vec<usize>> = args.iter().map(|a| len_of(a)).collect();
+                        if let Some(lens) = lens {
+                            let longest = lens.iter().copied().max().unwrap_or(0);
+                            if items.len() != longest {
+                                return Some(format!("{}: `{e}` has {} elements for lists of lengths {lens:?}", c.id, items.len()));
+                            }
+                            for (t, it) in items.iter().enumerate() {
+                                let want: Vec<String> = lens.iter().enumerate().filter(|(_, l)| **l > t).map(|(j, _)| format!(".{j}")).collect();
+                                let got: Vec<String> = match it { V::Obj(m) => m.iter().map(|(k, _)| k.clone()).collect(), _ => vec!["<not an object>".into()] };
+                                if got != want {
+                                    return Some(format!("{}: element {t} of `{e}` has the members {got:?}; the lists that have an item {t} are {want:?}", c.id));
+                                }
+                            }
                         }
                     }
                     V::Obj(groups) if e.starts_with("(group_by .l") => {
